@@ -209,6 +209,20 @@ def c14(pid, tier, t0):
     }, ["patterns with an unbounded repetition of a nullable sub-term are skipped", "& in the replacement is not part of the property and not used"])
 
 
+@check("C13")
+def c13(pid, tier, t0):
+    exe = nv.build_harness("c13_search", "asan", ["c13_search.c"], wraps=WRAPS)
+    res = nv.run_shards(exe, ["tier=" + tier, "deadline=%d" % dl(tier)], nv.NCPU, dl(tier) + 120)
+    return nv.finish(pid, tier, t0, res, {
+        "rule": "27 patterns (literals, anchors, word boundaries, empty-matching, groups, alternation) x every buffer of 1-2 lines of <= line_len characters and of 3 lines of <= 1 (thorough 2) "
+                "characters over {a,b,space,U+00E9} x every cursor position x forward/backward x ic on/off on the real lbuf_search; "
+                "distinct_nontrivial = searches for which the reference finds a match",
+        "depth_bound": res.stats.get("line_len"),
+        "explanation": "landing position (row, character offset) and match length compared with a whole-line reference: forward = smallest match start after the cursor character, else first match of the "
+                       "nearest following line; backward = last of the successive matches beginning before the cursor, else the last on the nearest preceding line; nothing found = position unchanged; no wrap-around",
+    }, ["the vi-level clauses (n/N direction, counts, ^A, the / and ? prompts) are explored by the vi-mode harness of C07/C08", "AddressSanitizer build"])
+
+
 def replay(path):
     print("replay artefact:")
     print(open(path).read())
